@@ -36,9 +36,9 @@ ASSUMPTIONS = [
     "a HeterogeneousLinearModel applied at another resolution uses the nearest-neighbour (cv2.INTER_NEAREST) resampling of its original label map",
 ]
 FLOORS = {
-    "quick": {"two_live_objects": 400, "clip": 300, "linear": 300, "combined_composition": 100, "combined_routing": 300, "heterogeneous_linear": 80, "heterogeneous_resolution_history": 100, "combined_routing_grouped": 100, "threshold": 150, "threshold_integer_signals": 500, "kernel_reproduces_values": 60, "kernel_values_updated": 100, "kernel_supports_replaced": 25, "kernel_advanced_updated": 15,
+    "quick": {"two_live_objects": 400, "clip": 300, "linear": 300, "combined_composition": 100, "combined_routing": 300, "heterogeneous_linear": 80, "heterogeneous_resolution_history": 100, "combined_routing_grouped": 100, "threshold": 150, "threshold_integer_signals": 500, "kernel_reproduces_values": 60, "kernel_values_updated": 100, "kernel_supports_replaced": 25, "heterogeneous_integer_signals": 150, "combined_with_labelwise_part": 150, "linear_models_on_images": 150, "kernel_advanced_updated": 15,
               "kernel_numba_equals_plain_sum": 150, "polynomial_span": 5},
-    "thorough": {"two_live_objects": 4000, "clip": 3000, "linear": 3000, "combined_composition": 1000, "combined_routing": 3000, "heterogeneous_linear": 800, "heterogeneous_resolution_history": 1000, "combined_routing_grouped": 1000, "threshold": 1500, "threshold_integer_signals": 5000, "kernel_reproduces_values": 600, "kernel_values_updated": 1000, "kernel_supports_replaced": 250, "kernel_advanced_updated": 150,
+    "thorough": {"two_live_objects": 4000, "clip": 3000, "linear": 3000, "combined_composition": 1000, "combined_routing": 3000, "heterogeneous_linear": 800, "heterogeneous_resolution_history": 1000, "combined_routing_grouped": 1000, "threshold": 1500, "threshold_integer_signals": 5000, "kernel_reproduces_values": 600, "kernel_values_updated": 1000, "kernel_supports_replaced": 250, "heterogeneous_integer_signals": 1500, "combined_with_labelwise_part": 1500, "linear_models_on_images": 1500, "kernel_advanced_updated": 150,
                  "kernel_numba_equals_plain_sum": 1500, "polynomial_span": 5},
 }
 SHARD_TIMEOUT = {"quick": 1500, "thorough": 7200}
@@ -107,6 +107,15 @@ def run_shard(spec, R):
         # ==================================================== scaling / linear
         for name, sig in signals(rng, darsia):
             if name == "image":
+                # Images are signals too: the result is an image of the same kind holding the model applied to the data
+                s_i, o_i = float(rng.uniform(0.5, 2)), float(rng.uniform(-1, 1))
+                for label_i, m_i, f_i in (("ScalingModel", darsia.ScalingModel(scaling=s_i), lambda a: s_i * a), ("LinearModel", darsia.LinearModel(scaling=s_i, offset=o_i), lambda a: s_i * a + o_i)):
+                    before_i = sig.img.copy()
+                    ok_i, out_i = R.guarded("linear", lambda: m_i(sig), key=lambda e, w: "C14:linear_model_rejects_images" if label_i == "LinearModel" else None)
+                    if ok_i:
+                        R.check(isinstance(out_i, darsia.Image) and np.allclose(out_i.img, f_i(before_i), rtol=1e-14, atol=1e-14) and np.array_equal(sig.img, before_i), "linear",
+                                {"model": label_i, "signal": "image", "scaling": s_i, "offset": o_i}, key="C14:linear_model_rejects_images" if label_i == "LinearModel" else None, group=label_i + "/image")
+                        R.count("linear_models_on_images")
                 continue
             s, o = float(rng.uniform(-2, 2)), float(rng.uniform(-1, 1))
             if (n + len(name)) % 3 == 0:
@@ -126,6 +135,8 @@ def run_shard(spec, R):
                     R.check(bool(good), "linear", case)
             # parameter routing of the linear model
             for dofs, params, exp in ((None, [1.5, 0.25], (1.5, 0.25)), (["scaling"], [3.0], (3.0, 7.0)), (["offset"], [0.5], (2.0, 0.5)), (["offset", "scaling"], [4.0, 0.75], (4.0, 0.75)),
+                                      # the documented spelling of "every parameter"
+                                      ("all", [1.25, -0.5], (1.25, -0.5)),
                                       # parameters that are exactly zero are values like any other
                                       (["offset"], [0.0], (2.0, 0.0)), (["scaling"], [0.0], (0.0, 7.0)), (None, [0.0, 0.0], (0.0, 0.0)), (["scaling", "offset"], [0.0, -1.0], (0.0, -1.0))):
                 m3 = darsia.LinearModel(scaling=2.0, offset=7.0)
@@ -300,6 +311,35 @@ def run_shard(spec, R):
                         out2 = hm(x)
                         good = all(np.allclose(out2[labels == v], (newp[li] * x + newp[nl + li])[labels == v], rtol=1e-14, atol=1e-14) for li, v in enumerate(values))
                         R.check(bool(good), "heterogeneous_linear", {**case, "what": "parameter routing"})
+            # integer-typed signals: the label-wise model still agrees with the homogeneous one (which promotes to float)
+            if ok:
+                xi8 = rng.integers(0, 200, size=shp).astype([np.uint8, np.uint16, np.int32][rep % 3])
+                hmi = darsia.HeterogeneousLinearModel(labels.astype(np.uint8), scaling=sc.copy(), offset=of.copy())
+                oki, outi = R.guarded("heterogeneous_linear", lambda: hmi(xi8.copy()), key=lambda e, w: "C14:heterogeneous_linear_truncates_integer_signals")
+                if oki:
+                    goodi = True
+                    for li, v in enumerate(values):
+                        homi = np.asarray(darsia.LinearModel(scaling=float(sc[li]), offset=float(of[li]))(xi8.copy()), float)
+                        goodi &= bool(np.allclose(np.asarray(outi, float)[labels == v], homi[labels == v], rtol=1e-12, atol=1e-12))
+                    R.check(goodi, "heterogeneous_linear", {**case, "what": "integer-typed signal", "signal_dtype": xi8.dtype.name, "result_dtype": np.asarray(outi).dtype.name},
+                            key="C14:heterogeneous_linear_truncates_integer_signals", group="integer_signal")
+                    R.count("heterogeneous_integer_signals")
+                # a combined model with a label-wise part: all parameters in order (scalings, offsets of the label-wise part,
+                # then the parameters of the next part)
+                partc = darsia.ClipModel(**{"min value": -5.0, "max value": 5.0})
+                hmc = darsia.HeterogeneousLinearModel(labels.astype(np.uint8), scaling=sc.copy(), offset=of.copy())
+                cmh = darsia.CombinedModel([hmc, partc])
+                pall = np.concatenate([rng.uniform(0.5, 2, size=nl), rng.uniform(-0.5, 0.5, size=nl), [-0.25, 0.75]])
+                okc, _ = R.guarded("combined_routing", lambda: cmh.update_model_parameters(pall.copy(), None), key=lambda e, w: "C14:combined_model_with_labelwise_part")
+                if okc:
+                    okc, outc = R.guarded("combined_routing", lambda: cmh(x.copy()))
+                if okc:
+                    expc = np.zeros(shp)
+                    for li, v in enumerate(values):
+                        expc[labels == v] = np.clip(pall[li] * x + pall[nl + li], -0.25, 0.75)[labels == v]
+                    R.check(bool(np.allclose(outc, expc, rtol=1e-13, atol=1e-13)), "combined_routing", {**case, "what": "label-wise part followed by a clip model, all parameters"},
+                            key="C14:combined_model_with_labelwise_part", group="labelwise_part")
+                    R.count("combined_with_labelwise_part")
             # static threshold: heterogeneous == homogeneous per label; strict inequalities; mask
             lo = rng.uniform(-0.2, 0.5, size=nl)
             hi = lo + rng.uniform(0.1, 1.0, size=nl)
@@ -371,10 +411,14 @@ def run_shard(spec, R):
             R.check(np.shape(at) == (ns,) and bool(np.all(np.abs(np.asarray(at, float) - vals) <= tolv)), "kernel_reproduces_values",
                     lambda: {**case, "what": "caller's order", "got": np.asarray(at, float).tolist()}, key="C14:kernel_values_reordered_once", group=kind)
             # new values prescribed on the same object (same supports, caller's order), through both entry points
-            for how in ("update", "update_model_parameters"):
+            for how in ("update", "update_model_parameters", "update_model_parameters_values_via_all"):
                 newv = rng.uniform(0, 1, size=ns)
                 if how == "update":
                     ok, _ = R.guarded("kernel_reproduces_values", lambda: ki.update(values=newv.copy()))
+                elif how == "update_model_parameters_values_via_all":
+                    # all parameters = (kernel, values): the same kernel object and new values; dofs None and "all" alike
+                    dflt = [None, "all"][kc % 2]
+                    ok, _ = R.guarded("kernel_reproduces_values", lambda: ki.update_model_parameters([kern] + list(newv), dflt), key=lambda e, w: "C14:kernel_interpolation_default_dofs")
                 else:
                     ok, _ = R.guarded("kernel_reproduces_values", lambda: ki.update_model_parameters(newv.copy(), ["values"]))
                 if ok:
